@@ -175,10 +175,10 @@ func c13MkEnv(v int) map[string]TV {
 		"selfname": tvS("selfname"), "sn": tvS("42"), "sf": tvS("2.5"), "sb": tvS("true"), "sneg": tvS("-3"), "sbad": tvS("bad"), "sx": tvS("a<b&c"), "su": tvS("élan vital"),
 		"bt": tvB(true), "bf": tvB(false), "b1": tvB(v&1 == 1), "b2": tvB(v&2 == 2),
 		"nl": tvNil(), "t": tvS("tee"), "hNil": tvNil(), // hNil: a nil variable named like a registered function
-		"m": tvMap(map[string]TV{"x": tvI(5 + v), "name": tvS("bob"), "ok": tvB(true), "off": tvB(false), "r": tvF(1.25),
+		"m": tvMap(map[string]TV{"x": tvI(5 + v), "name": tvS("bob"), "ok": tvB(true), "off": tvB(false), "r": tvF(1.25), "404": tvI(44 + v),
 			"in": tvMap(map[string]TV{"k": tvI(9 - v), "w": tvS("deep")})}),
 		"l": tvList(tvI(10+v), tvI(20), tvI(30)), "ls": tvKind("[]string", tvS("p"), tvS("q")), "li": tvKind("[]int", tvI(4), tvI(5+v)), "li1": tvKind("[]int", tvI(9)),
-		"mss": {K: "map[string]string", M: map[string]TV{"k": tvS("v")}}, "msi": {K: "map[string]int", M: map[string]TV{"k": tvI(8)}},
+		"mss": {K: "map[string]string", M: map[string]TV{"k": tvS("v"), "200": tvS("okay")}}, "msi": {K: "map[string]int", M: map[string]TV{"k": tvI(8), "7": tvI(70)}},
 		"st": {K: "Item", M: item}, "ps": {K: "*Item", M: item},
 		"ts": {K: "time", I: 1700000000},
 	}
